@@ -11,6 +11,7 @@ from ..lib import load
 from . import common as C
 
 ID = "C15"
+SENTINEL = True      # prelude cases (factory objects used and moved) are judged by the global-state sentinel here
 HASH_ADMISSION = False
 BUDGET = {"quick": 16000, "thorough": 320000}
 SOFT = {"quick": 70, "thorough": 560}
@@ -268,10 +269,27 @@ def judge(case):
     if cls == "polyhedron-open":
         ph = gen.rand_polyhedron(r, small=r.random() < 0.6)
         faces = [list(f) for f in ph[2]]
-        form = r.randrange(8)
+        form = r.randrange(9)
         lab = ("face-removed", "two-faces-removed", "face-translated", "dangling-face", "two-bodies", "duplicated-face",
-               "two-loose-polygons", "open-body-plus-loose-polygon")[form]
-        if form == 0:
+               "two-loose-polygons", "open-body-plus-loose-polygon", "two-bodies-glued-along-two-edges")[form]
+        if form == 8:
+            # two parallelepipeds O + {a, b, c} and O + {a, 2b, c - b}: they share the edge [O, O+a] and the opposite
+            # edge [O+b+c, O+a+b+c]; every edge lies in 2 or 4 faces and V - E + F = 12 - 22 + 12 = 2
+            while True:
+                a_, b_, c_ = gen.rdir(r, 2), gen.rdir(r, 2), gen.rdir(r, 2)
+                if K.det3(a_, b_, c_) != 0:
+                    break
+            O = gen.rpt(r, 2, (1, 2))
+
+            def pp(u, v, w):
+                corners = [K.add(O, K.add(K.mul(u, i), K.add(K.mul(v, j), K.mul(w, k)))) for i in (0, 1) for j in (0, 1) for k in (0, 1)]
+                return K.hull3d(corners)
+            ph = pp(a_, b_, c_)
+            ph2 = pp(a_, K.mul(b_, 2), K.sub(c_, b_))
+            faces = [list(f) for f in ph[2]] + [list(f) for f in ph2[2]]
+        if form == 8:
+            pass
+        elif form == 0:
             faces.pop(r.randrange(len(faces)))
         elif form == 1:
             faces.pop(r.randrange(len(faces)))
